@@ -118,3 +118,25 @@ func VerifC03Batch() {
 		rt.Reach("second-accepted")
 	}
 }
+
+// VerifC03OwnKey: a record that the network accepts (a bystander with full validation accepts it) is accepted
+// by every member's own replica too - also by the member whose own key entry in that record does not open.
+func VerifC03OwnKey() {
+	vC03Install()
+	full := &vC03Verifier{validate: true, acceptorOk: true}
+	root := vC03Root("own")
+	node, _, err := vC03List([]*consensusproto.RawRecordWithId{root}, full, "obs")
+	rt.Assert(err == nil, "build-bystander")
+	member, _, err := vC03List([]*consensusproto.RawRecordWithId{root}, full, "a1")
+	rt.Assert(err == nil, "build-member")
+	target := []string{"a1", "a2"}[rt.Choose(2)]
+	rec := vC03Record(root.Id, "own", &aclrecordproto.AclContentValue{Value: &aclrecordproto.AclContentValue_AccountsAdd{AccountsAdd: &aclrecordproto.AclAccountsAdd{
+		Additions: []*aclrecordproto.AclAccountAdd{{Identity: []byte(target), Permissions: aclrecordproto.AclUserPermissions_Writer, EncryptedReadKey: []byte("junk")}}}}})
+	if node.AddRawRecord(rec) != nil {
+		rt.Reach("network-refuses")
+		return
+	}
+	rt.Reach("network-accepts")
+	rt.Assert(member.AddRawRecord(rec) == nil, "member-accepts-what-the-network-accepts")
+	rt.Assert(member.Head().Id == node.Head().Id, "member-and-network-agree-on-the-head")
+}
